@@ -187,7 +187,9 @@ C02edit(p, t, q) ==
 C02adv_A(p, t, q) ==
   (/\ t.base = "ro" /\ p.ro.exists /\ q.ro.exists /\ p.ro.hasSub /\ q.ro.hasSub
    /\ p.ro.phase = "Progressing" /\ p.ro.reason = "InRolling" /\ q.ro.reason = "InRolling"
-   /\ p.ro.state = "StepReady" /\ q.ro.step = p.ro.step + 1 /\ q.ro.state = "BeforeStepUpgrade"
+   /\ p.ro.state = "StepReady"
+   /\ \/ q.ro.step = p.ro.step + 1 /\ q.ro.state = "BeforeStepUpgrade"
+      \/ q.ro.step = p.ro.step /\ q.ro.state = "Completed"            \* the last step is left the same way
    /\ ~UserJump(p) /\ ~PlanEdited(p) /\ ~RollbackSeen(p) /\ ~Superseded(p)
    /\ p.wl.exists /\ p.wl.R > 0)
 C02adv(p, t, q) ==
@@ -362,11 +364,19 @@ HandsBack(p, q) ==
 
 C10a_A(p, t, q) ==
   (/\ Ctrl(t) /\ p.ro.exists /\ p.ro.phase = "Progressing"
+   \* a release that already succeeded and is being finalised hands the workload back with the traffic on the NEW version
+   \* by design; a template change arriving that late is the subject of KF-C05-late-template-change-clobbered
+   /\ p.ro.reason \notin {"Finalising", "Completed"}
    /\ (RollbackSeen(p) \/ Superseded(p))
    /\ HandsBack(p, q))
 C10a(p, t, q) ==
   C10a_A(p, t, q)
   => AllTrafficStable(p.net)
+
+\* a blue-green release refuses supersession instead of mixing three versions: while it is rolling (not yet finalising)
+\* pods of at most two revisions exist
+C10bg_A(s) == s.wl.exists /\ s.wl.style = "bluegreen" /\ s.ro.exists /\ s.ro.phase = "Progressing" /\ s.ro.reason \in {"InRolling", "Paused"}
+C10bg(s) == C10bg_A(s) => Cardinality({r \in 1..3 : s.wl.n[r] > 0}) <= 2
 
 C10b(s) ==
   (s.ro.exists /\ s.user.rolledBack /\ s.ro.phase = "Healthy" /\ s.ro.reason = "Completed" /\ s.user.rev = 1)
@@ -465,7 +475,7 @@ C18tr(p, t, q) == C18tr_A(p, t, q) => RoutesWithdrawn(q.net)
 (***************************************************************************)
 ActionProps == {"C01a", "C01ro", "C01b", "C01c", "C02", "C02pause", "C02promote", "C02edit", "C02adv",
                 "C03a", "C03b", "C03c", "C09", "C10a", "C11a", "C11b", "C11c", "C11d", "C18a", "C18br", "C18tr"}
-StateProps  == {"C04a", "C04b", "C04c", "C05", "C05tr", "C07", "C10b", "C18b"}
+StateProps  == {"C04a", "C04b", "C04c", "C05", "C05tr", "C07", "C10b", "C10bg", "C18b"}
 MidProps    == {"C04a", "C04b", "C04c"}   \* also evaluated after every single API write (crash points)
 
 \* predicates about routes written by the Rollout's own traffic routing do not apply to scenarios in which a stand-alone
@@ -510,6 +520,7 @@ StateAnte(name, s) ==
     [] name = "C04c" -> s.net.ing \/ (s.net.route /\ (s.net.rtCanaryW >= 0 \/ s.net.rtGenRules > 0))
     [] name = "C05" -> Terminal(s)
     [] name = "C05tr" -> C05tr_A(s)
+    [] name = "C10bg" -> C10bg_A(s)
     [] name = "C07" -> C07_A(s)
     [] name = "C10b" -> s.ro.exists /\ s.user.rolledBack /\ s.ro.phase = "Healthy" /\ s.ro.reason = "Completed" /\ s.user.rev = 1
     [] name = "C18b" -> s.ghost.created /\ ~s.ro.exists /\ (s.user.rev >= 2 \/ s.user.rolledBack)
@@ -519,6 +530,7 @@ StateHolds(name, s) ==
   CASE name = "C04a" -> C04a(s) [] name = "C04b" -> C04b(s) [] name = "C04c" -> C04c(s)
     [] name = "C05" -> C05(s)   [] name = "C10b" -> C10b(s) [] name = "C18b" -> C18b(s)
     [] name = "C05tr" -> C05tr(s)
+    [] name = "C10bg" -> C10bg(s)
     [] name = "C07" -> C07(s)
 
 =============================================================================
